@@ -15,6 +15,7 @@ import (
 )
 
 type Clause struct {
+	Scope   []string // the clause applies only to calls made (transitively) from functions whose name contains one of these
 	Props   []string // property ids named in the clause's trailing comment: the clause belongs to these only
 	Text    string
 	Expr    Expr
@@ -348,6 +349,22 @@ func (cs *ContractSet) parseLines(fname string, lines []struct {
 			}
 			cur, curLemma = nil, nil
 		case "requires":
+			var scope []string
+			if w2, r2 := splitWord(rest); w2 == "in" {
+				if i := strings.Index(r2, ":"); i >= 0 {
+					for _, sc := range strings.Split(r2[:i], ",") {
+						scope = append(scope, strings.TrimSpace(sc))
+					}
+					rest = strings.TrimSpace(r2[i+1:])
+				}
+			}
+			if len(scope) > 0 && cur != nil {
+				if c := mkClause(rest, l.line, len(cur.Requires)+1); c != nil {
+					c.Scope = scope
+					cur.Requires = append(cur.Requires, c)
+				}
+				continue
+			}
 			if curLemma != nil {
 				if c := mkClause(rest, l.line, len(curLemma.Requires)+1); c != nil {
 					curLemma.Requires = append(curLemma.Requires, c)
